@@ -87,15 +87,29 @@ def claim(prog, rep, tag):
     rep.ob(P, "index-bounds" + tag, ok, "frame_at_index is reached only where frame_idx < num_frames", loc=b.span)
     lk = prog.body("PduStorageRef::frame_index_by_first_pdu_index")
     grp = prog.group("PduStorageRef::frame_index_by_first_pdu_index")
+    # the lookup and everything it calls in the frame-element layer must be read-only: no atomic
+    # read-modify-write or store, no write through the slot pointer (helper names do not matter)
     bad = []
+    seen = {}
+    todo = [(g, 0) for g in grp]
     for g in grp:
+        seen[g.path] = g
+    while todo:
+        g, depth = todo.pop()
         for c in g.calls():
-            n = c.name
-            if n.startswith(("FrameBox::", "FrameElement::")) and n not in ("FrameElement::first_pdu_is", "FrameElement::is_awaiting_response"):
-                bad.append(n)
-            if (c.decl_s or "").endswith(("::store", "::compare_exchange", "::swap", "::fetch_add")):
-                bad.append(n)
-    rep.ob(P, "lookup-only-loads" + tag, not bad, "the index lookup only loads (calls: first_pdu_is, is_awaiting_response); %s" % bad, loc=lk.span, how="inventory")
+            if (c.decl_s or "").endswith(("::store", "::compare_exchange", "::compare_exchange_weak", "::swap", "::fetch_add", "::fetch_sub", "::fetch_or", "::fetch_and", "::fetch_update", "ptr::write", "ptr::write_bytes", "ptr::copy_nonoverlapping", "::copy_from_slice", "::fill")):
+                bad.append("%s in %s" % (c.name, g.root_short))
+            t = prog.by_path.get(c.res) or prog.by_path.get(c.decl)
+            if t is not None and depth < 3 and t.root_short.startswith(("FrameBox::", "FrameElement::")):
+                for h in prog.groups[t.root]:
+                    if h.path not in seen:
+                        seen[h.path] = h
+                        todo.append((h, depth + 1))
+    for g in seen.values():
+        for (bi, si, kind, pl) in [a for fld in ("status", "first_pdu", "pdu_payload_len", "waker") for a in q.field_accesses(g, "FrameElement", fld)]:
+            if kind in ("write", "addr_mut"):
+                bad.append("write to FrameElement field in %s" % g.root_short)
+    rep.ob(P, "lookup-only-loads" + tag, not bad, "the index lookup and its helpers (%d bodies) only load: no atomic store / read-modify-write and no write through the slot pointer; %s" % (len(seen), bad), loc=lk.span, how="inventory")
 
 
 def awaiting_only(prog, rep, tag):
